@@ -14,7 +14,9 @@
 (*         data is written to '<name>.part' only; rename only              *)
 (*         '<x>.part' -> '<x>'                                   (C15)     *)
 (*  "K"  the same scenario killed before system call k: every file under a *)
-(*       final name is pre-existing or identical to the reference  (C15)   *)
+(*       final name is pre-existing or identical to a complete output the  *)
+(*       reference run made visible under that name (at the end, or before *)
+(*       a later output replaced it)  (C15)                                *)
 (*  "F"  the same scenario with system call k failing: no rotate_output    *)
 (*       returns normally for an output that lost bytes unless an API call *)
 (*       has thrown since; after an exception from a block-writing call    *)
@@ -46,6 +48,19 @@ RECURSIVE TotalRecs(_, _)
 TotalRecs(steps, i) == IF i > Len(steps) THEN 0
                        ELSE (IF steps[i].op = "rec" THEN steps[i].n ELSE 0) + TotalRecs(steps, i + 1)
 
+(* the name (index) each output is written under: output 1 -> name 1, a rotation goes to the name it says    *)
+(* ("to": a name used before, possibly the one in use) or to the next fresh name                            *)
+RECURSIVE NamesOf(_, _, _, _)
+NamesOf(steps, i, acc, mx) ==
+    IF i > Len(steps) THEN acc
+    ELSE IF steps[i].op = "rot" THEN
+         LET nm == IF "to" \in DOMAIN steps[i] THEN steps[i].to ELSE mx + 1 IN
+         NamesOf(steps, i + 1, Append(acc, nm), IF nm > mx THEN nm ELSE mx)
+    ELSE NamesOf(steps, i + 1, acc, mx)
+Names(steps) == NamesOf(steps, 1, <<1>>, 1)
+(* the outputs whose file is still there at the end: the last output written under each name *)
+Surviving(nm) == {o \in 1..Len(nm) : \A p \in (o + 1)..Len(nm) : nm[p] # nm[o]}
+
 OutOf(outs, o) == {x \in Range(outs) : x.o = o /\ x.final /\ ~x.old}
 RECURSIVE CatPorts(_, _, _)
 CatPorts(outs, o, maxo) == IF o > maxo THEN <<>>
@@ -61,22 +76,25 @@ RefViol(ev, ln) ==
         apil == {i \in 1..Len(log) : log[i].t = "api"}
         named == sc.kind = "file"
     IN
-    (IF ev.status # 0 THEN <<[l |-> ln, prop |-> "C14,C03,C15", ctx |-> Ctx(ev), what |-> "process died while producing the outputs (signal / abnormal exit)", status |-> ev.status]>> ELSE <<>>)
+    (IF ev.status # 0 THEN <<[l |-> ln, prop |-> "C14,C03,C15", ctx |-> Ctx(ev), what |-> IF ev.status = 99999 THEN "the scenario does not terminate (endless loop in the output stack)"
+                                                                                                ELSE "process died while producing the outputs (signal / abnormal exit)", status |-> ev.status]>> ELSE <<>>)
     \o (IF \E i \in apil : log[i].r # "ok" THEN <<[l |-> ln, prop |-> "C14,C13", ctx |-> Ctx(ev), what |-> "an API call failed in a fault-free run"]>> ELSE <<>>)
     \o (IF named /\ \E i \in sysl : log[i].c \in {"write", "writev"} /\ ~log[i].part
         THEN <<[l |-> ln, prop |-> "C15", ctx |-> Ctx(ev), what |-> "data written to a file that does not carry the .part suffix"]>> ELSE <<>>)
     \o (IF named /\ \E i \in sysl : log[i].c = "rename" /\ ~log[i].pq
         THEN <<[l |-> ln, prop |-> "C15", ctx |-> Ctx(ev), what |-> "rename other than '<name>.part' -> '<name>'"]>> ELSE <<>>)
-    \o (IF named /\ \E i, j \in sysl : i < j /\ log[i].c = "rename" /\ log[j].c \in {"write", "writev"} /\ log[j].o = log[i].o
+    \o (IF named /\ \E i, j \in sysl : /\ i < j /\ log[i].c = "rename" /\ log[j].c \in {"write", "writev"} /\ log[j].o = log[i].o
+                                       /\ ~\E a \in apil : i < a /\ a < j /\ log[a].c = "rot"     \* (a later output may use the name again)
         THEN <<[l |-> ln, prop |-> "C15,C13", ctx |-> Ctx(ev), what |-> "an output received data after it was renamed to its final name"]>> ELSE <<>>)
     \o (IF ev.status = 0 /\ \E x \in Range(ev.outs) : ~x.final
         THEN <<[l |-> ln, prop |-> "C15", ctx |-> Ctx(ev), what |-> "a .part file is left after all outputs were closed"]>> ELSE <<>>)
     \o (IF ev.status # 0 THEN <<>>
         ELSE IF sc.target = "writer" THEN
             LET exp == ExpW(sc.steps, {sc.chunks[i].id : i \in {j \in 1..Len(sc.chunks) : sc.chunks[j].n = 0}}, 1, <<>>, <<>>)
-                bad == {o \in 1..Len(exp) :
-                           \/ OutOf(ev.outs, o) = {}
-                           \/ LET x == CHOOSE y \in OutOf(ev.outs, o) : TRUE IN
+                nm  == Names(sc.steps)
+                bad == {o \in Surviving(nm) :
+                           \/ OutOf(ev.outs, nm[o]) = {}
+                           \/ LET x == CHOOSE y \in OutOf(ev.outs, nm[o]) : TRUE IN
                               ~x.stream_ok \/ x.rest # 0 \/ x.chunks # exp[o]}
             IN IF bad = {} THEN <<>>
                ELSE <<[l |-> ln, prop |-> "C14,C13", ctx |-> Ctx(ev),
@@ -87,7 +105,9 @@ RefViol(ev, ln) ==
                 maxo == Len(SelectSeq(sc.steps, LAMBDA s : s.op = "rot")) + 1
                 got == CatPorts(ev.outs, 1, maxo)
                 badfin == {x \in Range(ev.outs) : x.final /\ ~x.old /\ (~x.stream_ok \/ x.fin \notin {"eof", "empty"})}
-            IN (IF got = [i \in 1..n |-> i - 1] THEN <<>>
+                nm == Names(sc.steps)
+                reuse == Cardinality(Surviving(nm)) # Len(nm)      \* an output was replaced by a later one of the same name
+            IN (IF reuse \/ got = [i \in 1..n |-> i - 1] THEN <<>>
                 ELSE <<[l |-> ln, prop |-> "C14,C13,C01", ctx |-> Ctx(ev), what |-> "records read back from the outputs differ from the records buffered",
                         got |-> got, want |-> n]>>)
                \o (IF badfin = {} THEN <<>>
@@ -96,7 +116,10 @@ RefViol(ev, ln) ==
 
 KViol(ev, r, ln) ==
     IF r.scn.kind # "file" THEN <<>>
-    ELSE LET bad == {f \in Range(ev.files) : f.final /\ ~f.old /\ ~f.same} IN
+    ELSE LET complete(f) == \/ f.same        \* what the uncrashed run leaves under that name at the end, or earlier on:
+                            \/ \E i \in 1..Len(r.log) : /\ r.log[i].t = "sys" /\ r.log[i].c = "rename" /\ r.log[i].r = "ok"
+                                                        /\ r.log[i].q = f.name /\ r.log[i].n = f.h
+             bad == {f \in Range(ev.files) : f.final /\ ~f.old /\ ~complete(f)} IN
          IF bad = {} THEN <<>>
          ELSE <<[l |-> ln, prop |-> "C15", ctx |-> Ctx(r), k |-> ev.k,
                  what |-> "after a crash a file under a final name is neither pre-existing nor a complete output",
@@ -135,7 +158,8 @@ FViol(ev, r, ln) ==
         n == Cardinality({i \in 1..Len(ev.log) : ev.log[i].t = "api" /\ ev.log[i].c = "rec"})
         recApi == {i \in 1..Len(ev.log) : ev.log[i].t = "api" /\ ev.log[i].c \in {"recover-rot", "recover-wb"} /\ ev.log[i].r # "ok"}
     IN
-    (IF ev.status # 0 THEN <<[l |-> ln, prop |-> "C16,C03", ctx |-> Ctx(r), k |-> ev.k, what |-> "process died when an output system call failed"]>> ELSE <<>>)
+    (IF ev.status # 0 THEN <<[l |-> ln, prop |-> "C16,C03", ctx |-> Ctx(r), k |-> ev.k, what |-> IF ev.status = 99999 THEN "the API calls do not terminate after an output system call failed (endless loop)"
+                                                                                                    ELSE "process died when an output system call failed"]>> ELSE <<>>)
     \o (IF w.unrep = {} THEN <<>>
         ELSE <<[l |-> ln, prop |-> "C16", ctx |-> Ctx(r), k |-> ev.k, kind |-> sc.kind, comp |-> sc.comp, target |-> sc.target,
                 fault |-> ev.fault, persistent |-> ev.persistent, phase |-> FaultPhase(ev.log), symptom |-> "unreported",
@@ -155,7 +179,7 @@ FViol(ev, r, ln) ==
 TraceInit == l = 1 /\ ref = [e |-> "none"] /\ viol = <<>> /\ execs = 0
 
 TRef == /\ l <= N /\ Tr[l].e = "R"
-        /\ ref' = [scn |-> Tr[l].scn] /\ execs' = execs + 1 /\ l' = l + 1
+        /\ ref' = [scn |-> Tr[l].scn, log |-> Tr[l].log] /\ execs' = execs + 1 /\ l' = l + 1
         /\ viol' = Notes(RefViol(Tr[l], l))
 TK == /\ l <= N /\ Tr[l].e = "K"
       /\ l' = l + 1 /\ execs' = execs + 1 /\ UNCHANGED ref
